@@ -158,6 +158,7 @@ def _rand_connected(rng, n, max_edges, labels):
 
 
 LABELS = list(range(0, 12)) + [15, 16, 17, 31, 32, 33, 63, 64, 65, 100, 257]
+AMBIG = [1, 2, 3, 11, 12, 13, 21, 23, 31, 32, 111, 112, 121, 123, 211, 231, 311, 312]
 
 
 def _relabel(rng, nodes, edges):
@@ -191,6 +192,8 @@ def corpus():
     out.append({"calls": calls, "reuse": True})
     out.append({"calls": calls, "reuse": False, "decoy": True})
     out.append({"calls": [_call(0, *HOUSE, r, _ident_sub(HOUSE[0])) for r in HOUSE[0]]})
+    k4amb = ([1, 2, 12, 31], [[1, 2], [1, 12], [1, 31], [2, 12], [2, 31], [12, 31]])
+    out.append({"calls": [_call(0, *k4amb, r, _ident_sub(k4amb[0])) for r in k4amb[0]]})
     # two different motifs on the same vertex labels, alternating (cache keys must contain the name)
     tri_tail = ([0, 1, 2, 3], [[0, 1], [1, 2], [0, 2], [2, 3]])
     path4 = ([0, 1, 2, 3], [[0, 1], [1, 2], [2, 3]])
@@ -240,6 +243,13 @@ def generate(rng, tier):
         if rng.random() < 0.5:
             gs.append(_rand_connected(rng, rng.randint(2, 5), 7, LABELS))
         yield _stream(rng, gs, all_roots=False, extra_subs=2)
+    # (3b) labels whose decimal strings concatenate ambiguously ("1"+"2"+"31" = "12"+"31"): string-built cache keys
+    for _ in range(12 if tier == "quick" else 80):
+        gs = []
+        for _ in range(rng.randint(1, 2)):
+            n = rng.choice([4, 4, 5])
+            gs.append(_rand_connected(rng, n, rng.randint(n, min(n * (n - 1) // 2, 8)), AMBIG))
+        yield _stream(rng, gs, all_roots=True, extra_subs=0)
     # (4) malformed stream: roots outside the motif interleaved with good calls
     for _ in range(10 if tier == "quick" else 60):
         gs = [_rand_connected(rng, rng.randint(2, 5), 7, list(range(0, 9))) for _ in range(2)]
